@@ -69,7 +69,7 @@ def crash_key(stderr_text):
     return "crash:%s:%s" % (frame, msgc), msg
 
 
-def run_batch(worker, prop, tier, seed, batch, nbatch, rundir, timeout_s, racelog):
+def run_batch(worker, prop, tier, seed, batch, nbatch, rundir, timeout_s, racelog, memlimit_mb=0):
     """Runs one batch; after a crash resumes behind the offending case. Returns list of segment dirs + crash records."""
     segs, crashes, resume, inconclusive = [], [], 0, {}
     for seg in range(60):
@@ -82,8 +82,12 @@ def run_batch(worker, prop, tier, seed, batch, nbatch, rundir, timeout_s, racelo
         env["GOTRACEBACK"] = "all"
         if racelog:
             env["GORACE"] = "halt_on_error=0 log_path=%s" % os.path.join(racelog, "b%d.s%d" % (batch, seg))
+        def limit():
+            if memlimit_mb:
+                import resource
+                resource.setrlimit(resource.RLIMIT_AS, (memlimit_mb << 20, memlimit_mb << 20))
         with open(os.path.join(d, "stderr"), "wb") as se, open(os.path.join(d, "stdout"), "wb") as so:
-            rc = subprocess.run(cmd, stdout=so, stderr=se, env=env).returncode
+            rc = subprocess.run(cmd, stdout=so, stderr=se, env=env, preexec_fn=limit).returncode
         segs.append(d)
         if rc == 0:
             break
@@ -94,8 +98,14 @@ def run_batch(worker, prop, tier, seed, batch, nbatch, rundir, timeout_s, racelo
         if rc == 3:
             log("worker error (batch %d): %s" % (batch, errtxt[-2000:]))
             return segs, crashes, inconclusive, "worker reported an internal error: " + errtxt[-500:]
-        # process-fatal error: the journal holds the case that was executing
         jpath = os.path.join(d, "journal")
+        if rc == 5:  # the worker recorded a violation for the case in flight and gave up the process
+            try:
+                resume = int(json.loads(open(jpath).read().strip())["case"]) + 1
+                continue
+            except Exception:
+                break
+        # process-fatal error: the journal holds the case that was executing
         j = None
         try:
             j = json.loads(open(jpath).read().strip() or "null")
@@ -116,7 +126,8 @@ def load_known():
     if os.path.exists(path):
         for line in open(path):
             line = line.strip()
-            if line and not line.startswith("#"):
+            # "fixed: property=<id> <commit> <what failed>" lines record repairs; they suppress nothing
+            if line and not line.startswith("#") and not line.startswith("fixed:"):
                 out.append(json.loads(line))
     return out
 
@@ -214,7 +225,7 @@ def drive(a, prop, tier, seed, repo, t0, tag, rundir, worker, cleanup):
     segs, crashes, inconc, broken = [], [], {}, None
     with concurrent.futures.ThreadPoolExecutor(max_workers=par) as ex:
         futs = [ex.submit(run_batch, rworker if plan.get("race") else worker, prop, tier, seed, b, nb, rundir,
-                          plan["timeout_s"], racelog) for b in range(nb)]
+                          plan["timeout_s"], racelog, plan.get("mem_limit_mb", 0)) for b in range(nb)]
         for f in futs:
             s, c, i, br = f.result()
             segs += s
